@@ -3180,16 +3180,17 @@ static ASTNode *parse_enum_def(Stage1Parser *p) {
             if (!match(p, TOKEN_NUMBER)) {
                 parser_error(p, current_token(p)->line, current_token(p)->column, "Error at line %d, column %d: Expected number after '='\n",
                         current_token(p)->line, current_token(p)->column);
-                variant_values[count] = next_auto_value++;
+                variant_values[count] = next_auto_value;
             } else {
                 Token *num_tok = current_token(p);
                 variant_values[count] = (num_tok && num_tok->value) ? atoi(num_tok->value) : 0;
-                next_auto_value = variant_values[count] + 1;
                 advance(p);
             }
         } else {
-            variant_values[count] = next_auto_value++;
+            variant_values[count] = next_auto_value;
         }
+        /* Next implicit value; unsigned arithmetic so that INT_MAX wraps instead of overflowing (undefined) */
+        next_auto_value = (int)((unsigned int)variant_values[count] + 1u);
         
         count++;
         
